@@ -128,8 +128,8 @@ def choose(ctx, rng, direction, env, budget_factor=1):
     laws = env['laws']
     chosen = {}
 
-    def add(c):
-        c = sweep.assign(c, rng)
+    def add(c, via=None):
+        c = sweep.assign(c, rng, via=via)
         chosen.setdefault(sweep.cfgkey(c), c)
 
     if ctx.quick:
@@ -148,11 +148,12 @@ def choose(ctx, rng, direction, env, budget_factor=1):
         for c in small:
             if c['method'] in sweep.FULL_METHODS:
                 groups.setdefault((classkey(c), c['n']), []).append(c)
-        for g in sorted(groups):
+        paths = ['full', 'Transform', 'quad']       # every public entry point in turn (quad: linbasex_transform)
+        for gi, g in enumerate(sorted(groups)):
             lst = groups[g]
             kmax = max(c['fam'].get('k', -1) for c in lst)
             best = [c for c in lst if c['fam'].get('k', -1) == kmax]
-            add(best[rng.integers(len(best))])
+            add(best[rng.integers(len(best))], via=paths[(gi + ctx.seed) % 3])
         total = max(len(chosen) + 100, (400 if direction == 'inverse' else 300)) * budget_factor
         idx = rng.permutation(len(small))
         for i in idx:
@@ -276,12 +277,31 @@ def run_sweep(ctx, rng, direction, pid, enlarged=False):
         if method in sweep.FULL_METHODS:
             continue
         for opts in optl:
-            if opts.get('r') == 'grid':
-                continue
             n = int(rng.choice([25, 51] if ctx.quick else [25, 51, 101]))
             fams = sweep.families_1d(n)
             fam = fams[int(rng.integers(len(fams)))]
-            d = float(rng.choice([0.5, 0.1, 2.5, 0.37]))
+            if 'r' in opts:
+                # explicit radial grid: unit covariance T[s r] = s T[r] (inverse 1/s), every unit of the sweep
+                for d in sweep.UNITS[1:] + [0.37]:
+                    c = dict(dir=direction, method=method, via='func', opts=opts, fam=fam, n=n, rows=2, dr=d, pass_dr=True)
+                    c1 = dict(c, dr=1.0)
+                    try:
+                        data = np.array(sweep.make_data(c1)[0], dtype=float)
+                        a = sweep.run_method(c, data.copy())
+                        b = sweep.run_method(c1, data.copy())
+                    except Exception:  # noqa
+                        stats['raised'] += 1
+                        continue
+                    sc = d if direction == 'forward' else 1.0 / d
+                    dev = float(np.max(np.abs(a - sc * b)) / np.max(np.abs(sc * b)))
+                    stats['dr'] += 1
+                    if not (dev <= 1e-9):
+                        hits.append(mk_hit(pid, 'dr-scale', '%s:dr-scale:%s|%s' % (pid, method, sweep.optkey(opts)),
+                                           '%s %s options %s: the result on the grid %g*r is not %g times the result on the grid r '
+                                           '(relative deviation %.3g)' % (direction, method, opts, d, sc, dev), c,
+                                           dict(cfg=c, deviation=dev)))
+                continue
+            d = float(rng.choice([0.5, 0.1, 2.5, 0.37, 1e-3, 1e-6]))
             c = dict(dir=direction, method=method, via='func', opts=opts, fam=fam, n=n, rows=int(rng.choice(sweep.ROWS)),
                      dr=d, pass_dr=True)
             c1 = dict(c, dr=1.0)
